@@ -612,7 +612,7 @@ fn body(ctx: &Ctx, acc: &Acc, groups: u8, ch: &mut Chooser) {
         for c in &classes {
           if !x.e.values().any(|(_, legit)| legit.contains(c)) {
             ctx.violation(
-              &format!("{ENTRY}|rejected|spurious-blame|{c}|false:{}", x.e_key()),
+              &format!("{ENTRY}|rejected|spurious-blame|{c}"),
               &format!("error {c} blames a condition that holds (false: {:?}); {err}; header {header_s} claims {payload}", x.e.keys().collect::<Vec<_>>()),
               &case,
             );
